@@ -32,7 +32,7 @@ KINDS = ["complex", "complex", "real", "real", "real-mono", "product-gauss", "pr
 
 
 def plan(tier, seed):
-    n = 9 if tier == "quick" else 1320
+    n = 18 if tier == "quick" else 1320
     return [{"kind": k, "k": i, "seed": seed} for i in range(n) for k in KINDS]
 
 
